@@ -60,6 +60,44 @@ let run_case (ops : string list) : string list =
       let maxs = ref 0 in
       "ok" :: List.map (fun line ->
           let t = Array.of_list (String.split_on_char ' ' line) in
+          if t.(0) = "rest" then begin
+            (* a REST request on the same core: Model/RestWorld.v wrest *)
+            let path = unhex t.(3) in
+            let starts s p = String.length s >= String.length p && String.sub s 0 (String.length p) = p in
+            let after s p = String.sub s (String.length p) (String.length s - String.length p) in
+            let body () = json_of_tok t.(4) in
+            let req =
+              if path = "export" then Some RExport
+              else if path = "import" then Some (RImport (body ()))
+              else if path = "ls" then Some (RLs None)
+              else if starts path "ls/" then Some (RLs (Some (str_of_string (after path "ls/"))))
+              else if starts path "get/" then Some (RGet (str_of_string (after path "get/")))
+              else if starts path "pget/" then Some (RPGet (str_of_string (after path "pget/")))
+              else if starts path "set/" then Some (RSet (str_of_string (after path "set/"), body ()))
+              else if starts path "publish/" then Some (RPublish (str_of_string (after path "publish/"), body ()))
+              else if starts path "delete/" then Some (RDelete (str_of_string (after path "delete/")))
+              else if starts path "pdelete/" then Some (RPDelete (str_of_string (after path "pdelete/")))
+              else None in
+            (match req with
+             | None -> "rest:404"
+             | Some r ->
+                 let ((w', out), resp) = wrest !w TNone r in
+                 w := w';
+                 let kvs_str l = "kvs[" ^ String.concat ";" (List.sort compare (List.map (fun (k, v) -> xs k ^ "=" ^ js v) l)) ^ "]" in
+                 let names_str l = "names[" ^ String.concat ";" (List.sort compare (List.map xs (List.filter (fun n -> string_of_str n <> "$SYS") l))) ^ "]" in
+                 let first = (match resp with
+                              | RStatus st -> "rest:" ^ dec_of_n st
+                              | R200 BOk -> "rest:200:ok"
+                              | R200 (BJson v) -> "rest:200:" ^ js v
+                              | R200 (BKvs l) -> "rest:200:" ^ kvs_str l
+                              | R200 (BNames l) -> "rest:200:" ^ names_str l
+                              | R200 (BExport _) -> "rest:200:export") in
+                 let items = ref [first] in
+                 for n = 0 to !maxs do
+                   List.iter (fun (s, m) -> if int_of_n s = n then items := Printf.sprintf "%d:%s" n (canon m !maxs) :: !items) out
+                 done;
+                 String.concat " " (List.rev !items))
+          end else
           if t.(0) = "race" then begin
             (* n fresh sessions send the same cSet: in the model one after the other (the core handles one request at a time) *)
             let n = int_of_string t.(1) in
